@@ -28,19 +28,19 @@ CLAIMS = {
          "Decides: restart installs a fresh vector + Cleared + cancel; stale-run guard dominates Snapshot::update; worker stream switch dominates the spawn; run(cleared) resets every per-stream field; clear/update write every snapshot field.", "§3 C12 If the tick/tick_inner structure is gone the tick clauses are decided on the enumerated paths of the flattened tick; differences that no protocol rule classifies are INCONCLUSIVE."),
  "C13": ("other", "post-dominance of notify, must-pass-through flag check on run exits, typestate dataflow of the worker-mutex guard (through Option wrapping and helpers) for arming stores; when tick is re-architected: path traces of the flattened tick (protocol rules per path + equality with the reference tree's traces)",
          "Decides the pairing discipline of the wake-up protocol and that the callback handed to worker and injectors is the user's (a wrapper must forward on every path), and that only tick_inner / restart / Drop cancel a run; one genuine defect (lost wake-up) is a recorded known finding. Not liveness over schedules.", "§3 C13 If the tick/tick_inner structure is gone the tick clauses are decided on the enumerated paths of the flattened tick; differences that no protocol rule classifies are INCONCLUSIVE."),
- "C14": ("other", "decision-table extraction of Atom::parse evaluated on a complete finite abstraction of its input; finite transducer of the escape loop vs the ASCII replace; decision table of the word splitter; iterator-pipeline twins of parse/reparse",
+ "C14": ("other", "decision-table extraction of Atom::parse evaluated on a complete finite abstraction of its input; finite transducer of the escape loop vs the ASCII replace; decision table of the word splitter; iterator-pipeline twins of parse/reparse, splitter input is the pattern text itself",
          "Decides: the marker grammar of Atom::parse (text, kind, negative, append_dollar for every input, via a witness domain that is complete for the bounded inspection depth); the word splitter's table; that the ASCII and the non-ASCII half of Atom::new_inner unescape identically (`\\ ` → space, other backslashes kept); parse/reparse run the same pipeline on every call (no return in front of it except on equality of the raw text); Pattern::new never reaches the marker parser; flag sources for smart case; is_upper_case / to_lower_case are the fold-table lookup. Smart-case/normalization decisions over all strings are not decided.", "§3 C14"),
  "C15": ("other", "dominance of config stores, exhaustive dispatch-table extraction, negation shape, sum/propagate CFG shape, stable sort callee; INCONCLUSIVE when the scoring is re-architected (no dispatch on the receiver's own kind), sources of a None result",
          "Decides the compositional shape: per-atom config stores dominate every matcher call and are the only writes to the matcher's configuration; kind→function tables exhaustive and agreeing; negation; ?-propagation; total, position-preserving iteration over atoms / zipped columns; match_list drops an item only on the score's None; stable sort with Reverse(score).", "§3 C15 Also: a None result of the pattern scorers is always an inner None verdict."),
  "C16": ("proof", "table algebra over const-evaluated tables for all 1,112,064 scalars x 4 configurations + dispatch extraction from decision paths + fold-lookup semantics (found / not found)",
          "Exhaustive over a finite domain: the four tables are read from the compiler's const evaluator, the dispatch intervals and the fold lookup from MIR decision paths; sortedness, idempotence, ASCII fixed points, block confinement, NFKD and simple-case-folding oracles are checked for every scalar; every haystack-character comparison in the matcher is routed through the one normalizer.", "§3 C16"),
- "C17": ("other", "who-may-call + control dependence of constructors on has_ascii_graphemes, accessor sibling agreement",
-         "Narrow claim: every constructor decides by has_ascii_graphemes and fills by chars::graphemes, which hands the whole text to the segmenter; CR LF special case; accessors agree on both variants. Grapheme segmentation itself is library behaviour.", "§3 C17"),
+ "C17": ("other", "who-may-call + control dependence of constructors on has_ascii_graphemes, accessor sibling agreement, manifest rule on the segmentation feature",
+         "Narrow claim: every constructor decides by has_ascii_graphemes and fills by chars::graphemes, which hands the whole text to the segmenter; CR LF special case; accessors agree on both variants. Grapheme segmentation itself is library behaviour.", "§3 C17 Also: the two Cargo.toml build the matcher with grapheme segmentation for users of nucleo."),
  "C18": ("translation_validation", "per-function token equality with vendored rayon 1.10.0 quicksort.rs modulo an enumerated cancellation delta; MIR taint of the cancel result",
          "par_sort.rs is shown to be the vetted reference algorithm function by function, plus a separately checked cancellation delta (result tainted only by the flag; cancel points only between partition steps in safe code; comparator chain is the documented total order).", "§3 C18"),
  "C19": ("other", "control dependence + same-value rules in the tick call tree, tick as a boolean function of its phases per decision path, Snapshot::update guard/order discipline; when tick is re-architected: path traces of the flattened tick (protocol rules per path + equality with the reference tree's traces)",
          "Decides: every snapshot mutation in tick is guarded by the value returned as changed; changed ⊇ OR of the phases, running ⊇ the last phase's on every return path; running is the value that guards the spawn; failed-lock exit returns running:true; update guards and was_canceled discipline; Snapshot::update copies every field on every path; only tick_inner / restart / Drop raise `canceled`; hand-written clone_from copies every field; status lattice shape. Not the item accounting under concurrency.", "§3 C19 If the tick/tick_inner structure is gone the tick clauses are decided on the enumerated paths of the flattened tick; differences that no protocol rule classifies are INCONCLUSIVE."),
- "C20": ("other", "holder inventory (fields and by-value closure captures), enum decision table of matcher_item_refs, per-path polynomial of active_injectors, who-writes on state transitions, restart installs a fresh stream; per-state polynomial identity of the flattened active_injectors when the table is folded in; INCONCLUSIVE when the State enum is redesigned",
+ "C20": ("other", "holder inventory (fields and by-value closure captures), enum decision table of matcher_item_refs, per-path polynomial of active_injectors, who-writes on state transitions, restart installs a fresh stream; per-state polynomial identity of the flattened active_injectors when the table is folded in; INCONCLUSIVE when the State enum is redesigned, no Clone on stream holders other than Injector",
          "Decides the accounting argument of the subtraction: the Arc holders, three subtracted terms on every path, matcher_item_refs table = 1 + [worker points at current stream], transitions that justify it.", "§3 C20"),
 }
 
